@@ -824,6 +824,123 @@ def check_model(case, ctx):
             len(by.get('enable_motz_wise', [])), len(by.get('disable_motz_wise', [])), case['motz']))
 
 
+# =============================================================================
+# 4. organize_phases: phases built from species that only carry a phase *name*
+@st.composite
+def organize_case(draw):
+    nsurf = draw(st.integers(1, 2))
+    names = ['gas'] + (['bulk'] if draw(st.booleans()) else []) + ['surf%d' % k for k in range(nsurf)]
+    order = list(draw(st.permutations(names)))
+    pool = names + [None, 'elsewhere']          # species of no phase / of a phase nobody asked for
+    nsp = draw(st.integers(2, 10))
+    sp_phase = [draw(st.sampled_from(pool)) for _ in range(nsp)]
+    # every requested interface gets at least one species (an interface without species has no elements to write)
+    for k in range(nsurf):
+        if 'surf%d' % k not in sp_phase:
+            sp_phase.append('surf%d' % k)
+    if 'gas' not in sp_phase:
+        sp_phase.append('gas')
+    rx = []
+    for _ in range(draw(st.integers(0, 4))):
+        k = draw(st.integers(0, nsurf - 1))
+        on = [i for i, p in enumerate(sp_phase) if p == 'surf%d' % k]
+        gas = [i for i, p in enumerate(sp_phase) if p == 'gas']
+        a = draw(st.sampled_from(on))
+        b = draw(st.sampled_from(on))
+        g = draw(st.sampled_from(gas)) if draw(st.booleans()) else None
+        r_ = {'react': [a] + ([g] if g is not None else []), 'prod': [b]}
+        if r_ not in rx:         # (two identical reactions compare equal and are merged as duplicates by design)
+            rx.append(r_)
+    inter = []
+    for _ in range(draw(st.integers(0, 3))):
+        on = [i for i, p in enumerate(sp_phase) if p is not None and p.startswith('surf')]
+        inter.append({'i': draw(st.sampled_from(on)), 'j': draw(st.sampled_from(on)), 'slope': draw(st.floats(-20, 20))})
+    return {'order': order, 'sp_phase': sp_phase, 'rx': rx, 'inter': inter, 'sden': draw(gen.logf(1e-10, 1e-8)),
+            'give': draw(st.sampled_from(['all', 'all', 'no-reactions', 'no-interactions', 'species-only']))}
+
+
+def check_organize(case, ctx):
+    from pmutt.empirical.nasa import Nasa
+    import yaml
+    from pmutt.io.omkm import organize_phases, write_thermo_yaml
+    from pmutt.mixture.cov import PiecewiseCovEffect
+    from pmutt.omkm.reaction import SurfaceReaction
+    import pmutt.omkm.phase as omkm_phase
+    species = []
+    for i, p in enumerate(case['sp_phase']):
+        a = [4.0, 1e-3, 0, 0, 0, -1000.0 * (i + 1), 5.0]
+        species.append(Nasa(name='SP%d' % i, T_low=200., T_mid=1000., T_high=3000., a_low=a, a_high=a,
+                            elements={ELEMS[i % 4]: 1}, phase=p, n_sites=1 if (p or '').startswith('surf') else None))
+    rxns = [SurfaceReaction(reactants=[species[i] for i in r['react']], reactants_stoich=[1.0] * len(r['react']),
+                            products=[species[i] for i in r['prod']], products_stoich=[1.0]) for r in case['rx']]
+    inter = [PiecewiseCovEffect(name_i='SP%d' % d['i'], name_j='SP%d' % d['j'], intervals=[0.0], slopes=[d['slope']])
+             for d in case['inter']]
+    kind = {'gas': 'IdealGas', 'bulk': 'StoichSolid'}
+    data = []
+    for nm in case['order']:
+        d = {'name': nm, 'phase_type': kind.get(nm, 'InteractingInterface')}
+        if nm == 'bulk':
+            d['density'] = 21.4
+        if nm.startswith('surf'):
+            d['site_density'] = case['sden']
+        data.append(d)
+    give = case['give']
+    kw = {'species': species}
+    if give in ('all', 'no-interactions') and rxns:
+        kw['reactions'] = rxns
+    if give in ('all', 'no-reactions') and inter:
+        kw['interactions'] = inter
+    ctx.nontrivial(len(case['order']) >= 3 and bool(rxns or inter))
+    ctx.label('give:' + give, 'phases:%d' % len(case['order']))
+    phases = organize_phases(data, **kw)
+    if [type(p).__name__ for p in phases] != [kind.get(nm, 'InteractingInterface') for nm in case['order']] or \
+            [p.name for p in phases] != case['order']:
+        ctx.fail('C07.organize/phase-list', '%r for request %r' % ([(type(p).__name__, p.name) for p in phases], case['order']))
+        return
+    for ph in phases:
+        want = ['SP%d' % i for i, p in enumerate(case['sp_phase']) if p == ph.name]
+        if list(ph.species_names) != want:
+            ctx.fail('C07.organize/species', '%s lists %r, species declaring it: %r' % (ph.name, list(ph.species_names), want))
+            return
+        if sorted(ph.elements) != sorted({ELEMS[i % 4] for i, p in enumerate(case['sp_phase']) if p == ph.name}):
+            ctx.fail('C07.organize/elements', '%s: %r' % (ph.name, sorted(ph.elements)))
+            return
+        if ph.name.startswith('surf'):
+            mine = {i for i, p in enumerate(case['sp_phase']) if p == ph.name}
+            want_rx = [x for x, r in zip(rxns, case['rx']) if mine & set(r['react'] + r['prod'])] if 'reactions' in kw else []
+            got_rx = list(ph.reactions or [])
+            if [id(x) for x in got_rx] != [id(x) for x in want_rx]:
+                ctx.fail('C07.organize/reactions', '%s holds %d reactions, %d involve its species' % (ph.name, len(got_rx), len(want_rx)))
+                return
+            want_it = [x for x, d in zip(inter, case['inter']) if d['i'] in mine] if 'interactions' in kw else []
+            got_it = list(ph.interactions or [])
+            if [id(x) for x in got_it] != [id(x) for x in want_it]:
+                ctx.fail('C07.organize/interactions', '%s holds %d interactions, %d belong to its species' % (
+                    ph.name, len(got_it), len(want_it)))
+                return
+            if ph.site_density != case['sden']:
+                ctx.fail('C07.organize/site-density', repr(ph.site_density))
+    placed = {id(x) for ph in phases for x in ph.species}
+    for sp_, p in zip(species, case['sp_phase']):
+        if (id(sp_) in placed) != (p in case['order']):
+            ctx.fail('C07.organize/placement', '%s declares %r and is %s a phase' % (sp_.name, p, 'in' if id(sp_) in placed else 'in no'))
+            return
+    # the organised phases write a loadable thermo file that lists the same members
+    members = [x for x in species if id(x) in placed]
+    from pmutt.omkm.units import Units
+    txt = write_thermo_yaml(phases=phases, species=members, reactions=kw.get('reactions'), lateral_interactions=kw.get('interactions'),
+                            T=500., P=1., units=Units(quantity='mol', energy='kcal', act_energy='kcal/mol'))
+    try:
+        doc = yaml.safe_load(txt)
+    except yaml.YAMLError as e:
+        ctx.fail('C07.organize/yaml-does-not-load', str(e)[:200])
+        return
+    got = {p.get('name'): p.get('species') for p in (doc.get('phases') or [])}
+    want = {ph.name: list(ph.species_names) for ph in phases}
+    if got != want:
+        ctx.fail('C07.organize/yaml:phase-members', '%r vs %r' % (got, want))
+
+
 CLAUSES = [
     Clause('C07.phases', phase_history(), check_phases, 400, 4000,
            '1-4 coexisting IdealGas / StoichSolid / InteractingInterface objects (some default-constructed) over a pool of 8 species, '
@@ -845,6 +962,13 @@ CLAUSES = [
            'recording stubs of the CTI directives (no other name needed), and the recorded calls carry the same content (9 printed '
            'digits for coefficients, 6 for rate parameters), range-encoded members decode to the phase\'s reactions / interactions. '
            'Non-trivial = >= 2 phase kinds and a BEP-backed reaction or an interaction', quick_shards=6),
+    Clause('C07.organize', organize_case(), check_organize, 300, 3000,
+           'species that only carry a phase name (gas / bulk / 1-2 interfaces / None / a name nobody requested) in any order, 0-4 '
+           'surface reactions, 0-3 interactions, phase requests in any order, reactions / interactions supplied or not: '
+           'organize_phases returns the requested phases in the requested order and class, each listing exactly the species that '
+           'declare it (order kept) and their elements, interfaces hold exactly the reactions / interactions touching their species '
+           'and the site density; unplaced species stay unplaced; the thermo YAML of the result loads and lists the same members. '
+           'Non-trivial = >= 3 phases and a reaction or interaction', quick_shards=2),
 ]
 ASSUMPTIONS = ['rate parameters are recomputed with the documented calls (get_A(include_entropy=False), get_G_act / get_H_act) - C09 judges them',
                'CTI directives are executed against recording stubs; Cantera itself is not available offline']
